@@ -227,7 +227,10 @@ func (g *gen) declare(in Input, e, w, k int) Input {
 // [startEvery] with the real shared informer.
 func (g *gen) declGrid(rounds, startEvery int, mainF, otherF []filterDef) []core.In[Input] {
 	var ins []core.In[Input]
-	k := g.r.Intn(3)
+	k, off := g.r.Intn(3), 0
+	if startEvery > 0 {
+		off = g.r.Intn(startEvery)
+	}
 	for round := 0; round < rounds; round++ {
 		for e := -1; e < 8; e++ {
 			for w := -1; w < 8; w++ {
@@ -242,8 +245,9 @@ func (g *gen) declGrid(rounds, startEvery int, mainF, otherF []filterDef) []core
 				nIds := 1 + g.r.Intn(2)
 				in := g.history(nIds, 6, f, e, k%2 == 0)
 				ins = append(ins, core.In[Input]{Input: g.declare(in, e, w, k), Stream: "declared"})
-				if startEvery > 0 && k%startEvery == 0 {
-					ins = append(ins, core.In[Input]{Input: g.declare(g.startCase(e), e, w, k/startEvery), Stream: "declared-start"})
+				// the start cases lie on diagonals of the grid that move with the round and the seed
+				if startEvery > 0 && (e+w+2+round+off)%startEvery == 0 {
+					ins = append(ins, core.In[Input]{Input: g.declare(g.startCase(e), e, w, k+1), Stream: "declared-start"})
 				}
 			}
 		}
